@@ -7,6 +7,7 @@
 use std::collections::HashMap;
 
 use proptest::prelude::*;
+use serde::{Deserialize, Serialize};
 
 use crate::{
 	engine::{Engine, LegOpts, Outcome},
@@ -179,6 +180,164 @@ pub fn scenario(errors: bool) -> BoxedStrategy<Scenario> {
 		.boxed()
 }
 
+// ---------------------------------------------------------------------------------------------
+// The filterer replaced at run time: "the configured filter" is the one configured when the event is sent
+
+#[derive(Clone, Debug, Serialize, Deserialize)]
+pub struct SwapCase {
+	pub throttle: u16,
+	/// per phase: (classes rejected by this phase's filter as a bit mask over 4 classes, events (gap ms, class, urgent))
+	pub phases: Vec<(u8, Vec<(u16, u8, bool)>)>,
+}
+
+#[derive(Debug)]
+struct MaskFilter {
+	phase: usize,
+	mask: u8,
+	asked: std::sync::Arc<std::sync::Mutex<Vec<(u32, usize, bool)>>>,
+}
+impl watchexec::filter::Filterer for MaskFilter {
+	fn check_event(&self, event: &watchexec_events::Event, _p: watchexec_events::Priority) -> Result<bool, watchexec::error::RuntimeError> {
+		let Some(id) = crate::wxrun::id_of(event) else { return Ok(true) };
+		let class = (id & 0xff) as u8 % 4;
+		let ok = self.mask & (1 << class) == 0;
+		self.asked.lock().unwrap().push((id, self.phase, ok));
+		Ok(ok)
+	}
+}
+
+pub fn run_swap(c: &SwapCase) -> Outcome {
+	use std::sync::{Arc, Mutex};
+	use std::time::{Duration, Instant};
+	use watchexec_events::Priority;
+	let mut o = Outcome::pass();
+	let rt = tokio::runtime::Builder::new_multi_thread().worker_threads(2).enable_all().build().unwrap();
+	// id = phase << 16 | index << 8 | class
+	struct Obs {
+		delivered: Vec<Vec<Option<u32>>>,
+		asked: Vec<(u32, usize, bool)>,
+		sent: Vec<(u32, usize, u8, bool)>,
+		settled: bool,
+		main: String,
+	}
+	let obs: Obs = rt.block_on(async {
+		let config = watchexec::Config::default();
+		config.throttle(Duration::from_millis(u64::from(c.throttle)));
+		let asked: Arc<Mutex<Vec<(u32, usize, bool)>>> = Arc::new(Mutex::new(Vec::new()));
+		let delivered: Arc<Mutex<Vec<Vec<Option<u32>>>>> = Arc::new(Mutex::new(Vec::new()));
+		{
+			let delivered = delivered.clone();
+			config.on_action(move |mut action| {
+				let ids: Vec<Option<u32>> = action.events.iter().map(crate::wxrun::id_of).collect();
+				let quit = ids.contains(&Some(crate::wxrun::QUIT_ID));
+				delivered.lock().unwrap().push(ids);
+				if quit {
+					action.quit();
+				}
+				action
+			});
+		}
+		let wx = watchexec::Watchexec::with_config(config).expect("with_config");
+		let mut main = wx.main();
+		let mut sent: Vec<(u32, usize, u8, bool)> = Vec::new();
+		let mut settled = true;
+		for (pi, (mask, evs)) in c.phases.iter().enumerate() {
+			// everything sent so far must have been judged (or delivered, if urgent) before the filter changes:
+			// an event still in the queue may legitimately meet either filter
+			let until = Instant::now() + Duration::from_secs(3);
+			loop {
+				let judged = asked.lock().unwrap().len() + sent.iter().filter(|s| s.3).count();
+				if judged >= sent.len() {
+					break;
+				}
+				if Instant::now() > until {
+					settled = false;
+					break;
+				}
+				tokio::time::sleep(Duration::from_millis(2)).await;
+			}
+			wx.config.filterer(MaskFilter { phase: pi, mask: *mask, asked: asked.clone() });
+			for (k, (gap, class, urgent)) in evs.iter().enumerate() {
+				if *gap > 0 {
+					tokio::time::sleep(Duration::from_millis(u64::from(*gap))).await;
+				}
+				let id = ((pi as u32) << 16) | ((k as u32) << 8) | u32::from(*class % 4);
+				let _ = wx.send_event(crate::wxrun::make_event(id, 0), if *urgent { Priority::Urgent } else { Priority::Normal }).await;
+				sent.push((id, pi, *class % 4, *urgent));
+			}
+		}
+		// quiescence
+		let until = Instant::now() + Duration::from_millis(2000 + 3 * u64::from(c.throttle));
+		loop {
+			let judged = asked.lock().unwrap().len() + sent.iter().filter(|s| s.3).count();
+			let want: usize = sent.iter().filter(|s| s.3 || c.phases[s.1].0 & (1 << s.2) == 0).count();
+			let got: usize = delivered.lock().unwrap().iter().map(Vec::len).sum();
+			if (judged >= sent.len() && got >= want) || Instant::now() > until {
+				break;
+			}
+			tokio::time::sleep(Duration::from_millis(3)).await;
+		}
+		tokio::time::sleep(Duration::from_millis(30 + u64::from(c.throttle))).await;
+		let _ = tokio::time::timeout(Duration::from_secs(2), wx.send_event(crate::wxrun::make_event(crate::wxrun::QUIT_ID, 0), Priority::Urgent)).await;
+		let main = match tokio::time::timeout(Duration::from_secs(5), &mut main).await {
+			Err(_) => {
+				main.abort();
+				"hang".to_string()
+			}
+			Ok(Ok(Ok(()))) => "ok".to_string(),
+			Ok(other) => format!("{other:?}"),
+		};
+		let d = delivered.lock().unwrap().clone();
+		let a = asked.lock().unwrap().clone();
+		Obs { delivered: d, asked: a, sent, settled, main }
+	});
+	rt.shutdown_timeout(Duration::from_millis(200));
+	let dump = || format!("\ncase {c:?}\nsent (id, phase, class, urgent): {:?}\nfilter calls (id, phase of the filter that was asked, verdict): {:?}\nbatches: {:?}\nmain: {}", obs.sent, obs.asked, obs.delivered, obs.main);
+	let differing = c.phases.windows(2).any(|w| w[0].0 != w[1].0);
+	o.nontrivial = c.phases.len() >= 2 && differing;
+	if differing {
+		o.label("filters-differ-between-phases");
+	}
+	if !obs.settled {
+		o.label("not-settled-before-a-swap");
+		return o;
+	}
+	if obs.main != "ok" {
+		o.fail("filter-swap:main", format!("main task: {}{}", obs.main, dump()));
+		return o;
+	}
+	for (id, phase, class, urgent) in &obs.sent {
+		let n = obs.delivered.iter().flatten().filter(|x| **x == Some(*id)).count();
+		let accept = *urgent || c.phases[*phase].0 & (1 << class) == 0;
+		if let Some((_, fp, _)) = obs.asked.iter().find(|(i, fp, _)| i == id && fp != phase) {
+			o.fail(
+				"filter-swap:judged-by-replaced-filter",
+				format!("event {id:#x} was sent after filter {phase} had been configured but was judged by filter {fp}{}", dump()),
+			);
+			return o;
+		}
+		if accept && n != 1 {
+			o.fail(if n == 0 { "accepted-event-never-delivered" } else { "event-delivered-twice" }, format!("event {id:#x} (accepted by the filter configured when it was sent) was delivered {n} times{}", dump()));
+			return o;
+		}
+		if !accept && n != 0 {
+			o.fail("rejected-event-delivered", format!("event {id:#x} (rejected by the filter configured when it was sent) was delivered{}", dump()));
+			return o;
+		}
+	}
+	o
+}
+
+fn swap_strategy() -> BoxedStrategy<SwapCase> {
+	let ev = (prop_oneof![3 => Just(0u16), 1 => Just(3), 1 => Just(40)], 0u8..4, proptest::bool::weighted(0.1));
+	(
+		prop_oneof![Just(0u16), Just(25)],
+		proptest::collection::vec((0u8..16, proptest::collection::vec(ev, 1..5)), 2..5),
+	)
+		.prop_map(|(throttle, phases)| SwapCase { throttle, phases })
+		.boxed()
+}
+
 pub fn check(e: &Engine) {
 	e.assume("real time, in-process Watchexec on a 2-worker runtime per scenario; all ledger assertions are schedule-independent; the quit is requested only after everything owed has arrived or a 1.5 s + 3 x throttle wait has expired (a violation only if it reproduces 3 times)");
 	e.assume("events sent concurrently with or after the quit are outside the property ('until a quit is requested')");
@@ -208,6 +367,17 @@ pub fn check(e: &Engine) {
 		&super::realsrc::strategy,
 		&super::realsrc::run,
 	);
+	e.explore(
+		"filter-swap",
+		LegOpts::realtime(
+			e.tier.pick(300, 6_000),
+			16,
+			"2-4 phases; at the start of each the filterer is replaced through Config::filterer (recording filters rejecting a generated subset of 4 event classes) once everything sent before has been judged, then 1-4 events (gaps 0-40 ms, some urgent) are sent: every event is judged only by the filter configured when it was sent, delivered exactly once if that filter accepts it (or it is urgent) and never otherwise; non-trivial = consecutive phases with different filters",
+		),
+		&swap_strategy,
+		&run_swap,
+	);
+	e.require_label("filter-swap", "filters-differ-between-phases", 0.7);
 	e.require_label("real-sources", "signals", 0.7);
 	e.require_label("real-sources", "keyboard-eof", 0.1);
 	e.require_label("ledger", "2+batches", 0.3);
